@@ -361,8 +361,11 @@ func (fr *Frame) applyContract(callee *ssa.Function, sp *spec.FuncSpec, args []V
 		}
 	}
 	// a callee that can perform declared effects appends its events to the (flattened) trace: the trace keeps its
-	// prefix and may grow; what the callee's contract says about tlen()/evIs(...) then describes that segment
-	if !sp.Pure && vc.W.BodyMayEffect(callee) {
+	// prefix and may grow; what the callee's contract says about tlen()/evIs(...) then describes that segment.
+	// A callee that is itself declared `effect` is logged in call order: first the event of the call, then the
+	// events of its body (so old(tlen()) in its contract is the position right after its own event).
+	callFirst := sp.Effect && !sp.Pure && vc.W.BodyMayEffect(callee)
+	if !callFirst && !sp.Pure && vc.W.BodyMayEffect(callee) {
 		fr.havocTrace(st)
 	}
 	// results
@@ -402,6 +405,28 @@ func (fr *Frame) applyContract(callee *ssa.Function, sp *spec.FuncSpec, args []V
 	env.results = res
 	env.resultNames = resultNames(callee, sp)
 	env.st = st
+	logOwn := func() {
+		recv := ""
+		as := args
+		fr.logRecv = nil
+		if callee.Signature.Recv() != nil && len(args) > 0 {
+			if vc.S.Sort(args[0].T) == "Iface" {
+				recv = vc.term(pre, args[0])
+			}
+			fr.logRecv = []Val{args[0]}
+			as = args[1:]
+		}
+		fr.logCall(st, pre, key, recv, as, res)
+		fr.logRecv = nil
+	}
+	if callFirst {
+		logOwn()
+		tc, lc := vc.traceCells(st)
+		pre2 := pre.clone()
+		pre2.cells[tc], pre2.cells[lc] = st.cells[tc], st.cells[lc]
+		env.old = pre2
+		fr.havocTrace(st)
+	}
 	for _, e := range sp.Ensures {
 		if e.Local {
 			continue // about the callee's own variables: not part of what callers may assume
@@ -409,16 +434,8 @@ func (fr *Frame) applyContract(callee *ssa.Function, sp *spec.FuncSpec, args []V
 		g := env.compileBool(e.Expr)
 		vc.fact(implies(cond, g))
 	}
-	if sp.Effect {
-		recv := ""
-		as := args
-		if callee.Signature.Recv() != nil && len(args) > 0 {
-			if vc.S.Sort(args[0].T) == "Iface" {
-				recv = vc.term(pre, args[0])
-			}
-			as = args[1:]
-		}
-		fr.logCall(st, pre, key, recv, as, res)
+	if sp.Effect && !callFirst {
+		logOwn()
 	}
 	return packResults(res, resT)
 }
@@ -474,7 +491,7 @@ func (fr *Frame) execInvoke(c *ssa.CallCommon, recv Val, args []Val, resT types.
 	key := ""
 	if n, ok := types.Unalias(c.Value.Type()).(*types.Named); ok && n.Obj().Pkg() != nil {
 		key = shortPath(n.Obj().Pkg().Path()) + ":" + n.Obj().Name() + "." + c.Method.Name()
-		if !strings.HasPrefix(n.Obj().Pkg().Path(), RepoModule) {
+		if !inRepoPath(n.Obj().Pkg().Path()) {
 			key = n.Obj().Pkg().Path() + "." + n.Obj().Name() + "." + c.Method.Name()
 		}
 	} else if isErrorType(c.Value.Type()) {
@@ -651,7 +668,38 @@ func (fr *Frame) logCall(st, pre *State, key, recv string, args []Val, res []Val
 			break
 		}
 	}
-	vc.logEffect(st, key, recv, strs, errT, payload, ptr)
+	// the first boolean argument, and the event whose (pointer) result the first pointer argument / receiver is
+	b1 := ""
+	for _, a := range args {
+		if a.T != nil && a.Re == nil && a.Clo == nil && vc.S.Sort(a.T) == "Bool" {
+			b1 = vc.term(pre, a)
+			break
+		}
+	}
+	from := ""
+	for _, a := range append(append([]Val{}, fr.logRecv...), args...) {
+		if a.T == nil || a.Term == "" {
+			continue
+		}
+		if _, isPtr := a.T.Underlying().(*types.Pointer); isPtr {
+			if idx, ok := vc.resultOrigin[a.Term]; ok {
+				from = idx
+			}
+			break
+		}
+	}
+	idx := vc.logEffect(st, key, recv, strs, errT, payload, ptr, b1, from)
+	for _, r := range res {
+		if r.T == nil || r.Term == "" {
+			continue
+		}
+		if _, isPtr := r.T.Underlying().(*types.Pointer); isPtr {
+			if vc.resultOrigin == nil {
+				vc.resultOrigin = map[string]string{}
+			}
+			vc.resultOrigin[r.Term] = idx
+		}
+	}
 }
 
 // ---------------------------------------------------------------- builtins
